@@ -966,8 +966,9 @@ func (t *Topic) saveAndBroadcastMessage(msg *ClientComMessage, asUid types.Uid, 
 	pud, userFound := t.perUser[asUid]
 	// Anyone is allowed to post to 'sys' topic.
 	if t.cat != types.TopicCatSys {
-		// If it's not 'sys' check write permission.
-		if !(pud.modeWant & pud.modeGiven).IsWriter() {
+		// If it's not 'sys' check write permission. A deleted (unsubscribed) P2P user keeps
+		// the old modes in cache but is not a subscriber any more.
+		if !(pud.modeWant&pud.modeGiven).IsWriter() || pud.deleted {
 			msg.sess.queueOut(ErrPermissionDenied(msg.Id, t.original(asUid), msg.Timestamp))
 			return types.ErrPermissionDenied
 		}
